@@ -58,6 +58,18 @@ def run(ctx):
     ctx.sample(recs[len(recs) // 2])
     ctx.cov["traces_validated_against_impl"] = nx + len(recs)
     ctx.cov["evaluations"] = pairs + nx + len(recs)
+    # (d) the gate behind datagram transports: UDP client / broadcast / server peers sending single frames, damaged frames and
+    #     datagrams that carry many frames (300..500 bytes): every valid frame is delivered, nothing damaged is
+    import random
+    import scenarios
+    from checks import _node
+    rng = random.Random(ctx.seed)
+    scs = scenarios.fam_udp(rng, 16 if ctx.thorough() else 4) + [
+        sc for sc in scenarios.fam_events_server(rng, 24 if ctx.thorough() else 8) if "udp_server" in sc["name"]]
+    runs = _node.play(ctx, scs)
+    st = _node.validate(ctx, runs, defs, ["C10.frame_event_without_valid_frame_fed", "C10.frames_lossless_and_in_order",
+                                          "C10.nothing_lost_before_close"])
+    ctx.cov["datagram_scenarios"] = st["scenarios"]
     ctx.cov["crc_step_pairs_checked_on_real_code"] = pairs
     ctx.cov["crc_step_pairs_exhaustive"] = pairs == 1 << 24
     ctx.cov["gate_vectors_from_spec"] = nvec
@@ -65,7 +77,8 @@ def run(ctx):
     ctx.cov["gate_frames_delivered"] = delivered
     ctx.cov["rule"] = ("(a) real Sum16 of all 3-byte strings with a given first byte (= all 65536x256 (register,byte) pairs behind it); "
                        "(b) random strings <=300 bytes in random splits; (c) TLC-computed valid frames of dialect messages read by a real "
-                       "dialect reader untouched, with every single-bit flip, byte substitutions, multi-byte damage; distinct = record "
+                       "dialect reader untouched, with every single-bit flip, byte substitutions, multi-byte damage; (d) a node behind UDP client / "
+                       "broadcast / server transports fed single, damaged and many-frames-per-datagram input; distinct = record "
                        "classes (first byte | length/splits | tag, length, result kinds)")
     ctx.assumptions += ["X25.tla bit-serial definition is CRC-16/MCRF4XX (catalogue check value 0x6F91 asserted)",
                         "CRC_EXTRA derived by the spec from the reflected definition (C03)"]
